@@ -44,6 +44,14 @@ _PyTask = asyncio.tasks._PyTask  # pure python Task: bound-method callbacks => h
 _TIMEOUT = 1000.0  # virtual seconds; time only advances when the scheduler fires a timer
 
 
+
+class Item(tuple):
+    """a channel item that is hashable and comparable like its (sender, index) pair, but FALSY for odd indices: the channel
+    must deliver any object, also the ones whose truth value is False (0, '', an all-default message)"""
+    def __bool__(self):
+        return self[1] % 2 == 0
+
+
 class _Pruned(Exception):
     pass
 
@@ -185,7 +193,7 @@ class Run:
         self.received_set = set()
         self.last_idx = {}
         self.loop_errors = []
-        self.valid_items = {(i, k) for i, n in enumerate(config["senders"]) for k in range(n)}
+        self.valid_items = {Item((i, k)) for i, n in enumerate(config["senders"]) for k in range(n)}
         self.rstate = [_RecvState() for _ in config["receivers"]]
         self.rtasks = []
         self.tasks = []  # (name, task) in creation order
@@ -344,7 +352,7 @@ class Run:
     async def _sender(self, i, n):
         ch = self.ch
         for k in range(n):
-            item = (i, k)
+            item = Item((i, k))     # every second item is falsy (an all-default message is falsy too)
             was_closed = self.closed_called
             self.send_status[item] = "started"
             try:
